@@ -393,14 +393,21 @@ def scenario_streams(sc, tabs):
     req = {"ovni": tabs["ovni"]["version"], mname: tabs[mname]["version"]}
     allth = [t for pr in sc.procs for t in pr["threads"]]
     streams = {}
-    first = True
+    # processes may live in different looms (key "loom", default one loom): each loom declares its CPUs
+    # in its first stream and its threads run on the CPUs of their own loom
+    byloom = {}
     for pr in sc.procs:
+        byloom.setdefault(pr.get("loom", "node0"), []).extend(pr["threads"])
+    seen = set()
+    for pr in sc.procs:
+        loom = pr.get("loom", "node0")
+        lth = byloom[loom]
         for t in pr["threads"]:
-            s = Stream(tid=t, pid=pr["pid"], app_id=pr["appid"], require=req,
-                       cpus=[(i, i) for i in range(len(allth))] if first else None,
+            s = Stream(loom=loom, tid=t, pid=pr["pid"], app_id=pr["appid"], require=req,
+                       cpus=[(i, i) for i in range(len(lth))] if loom not in seen else None,
                        rank=pr["rank"], nranks=16 if pr["rank"] is not None else None)
-            first = False
-            s.ev(100 + allth.index(t), "OHx", i32(allth.index(t), -1) + u64(0))
+            seen.add(loom)
+            s.ev(100 + allth.index(t), "OHx", i32(lth.index(t), -1) + u64(0))
             streams[t] = s
     clk = 1000
     clocks = []
